@@ -1662,3 +1662,122 @@ Proof.
       destruct (snd la) as [i|j l|z]; simpl in *; auto.
       destruct HR as [A B]. split; [lia|]. destruct (SN1 j) as (E & _). unfold kid in *. rewrite E in B. exact B.
 Qed.
+
+Definition has_ui (i : nat) (c : list src) : bool :=
+  existsb (fun s => match s with SUI i' => Nat.eqb i i' | _ => false end) c.
+
+Lemma uses_in_spec i j conns : forall k0 jk,
+  In jk (uses_in i j k0 conns) <->
+  fst jk = j /\ k0 <= snd jk /\ snd jk < k0 + List.length conns /\ has_ui i (nth (snd jk - k0) conns []) = true.
+Proof.
+  induction conns as [|c r IH]; intros k0 [j' k]; simpl.
+  - split; [tauto|]. intros (_ & A & B & _). lia.
+  - rewrite in_app_iff, IH. fold (has_ui i c). simpl. split.
+    + intros [(A & B & C & D)|H].
+      * repeat split; auto; try lia. replace (k - k0) with (S (k - S k0)) by lia. exact D.
+      * destruct (has_ui i c) eqn:E; [|destruct H]. destruct H as [H|[]]. inversion H; subst.
+        repeat split; auto; try lia. now rewrite Nat.sub_diag.
+    + intros (A & B & C & D). destruct (Nat.eq_dec k k0) as [->|Hne].
+      * right. rewrite Nat.sub_diag in D. rewrite D. left. now subst.
+      * left. repeat split; auto; try lia. replace (k - k0) with (S (k - S k0)) in D by lia. exact D.
+Qed.
+
+Lemma uses_spec i body : forall j0 j k,
+  In (j, k) (uses i j0 body) <->
+  j0 <= j /\ j < j0 + List.length body /\
+  k < List.length (sb_conns (nth (j - j0) body dsb)) /\ has_ui i (nth k (sb_conns (nth (j - j0) body dsb)) []) = true.
+Proof.
+  induction body as [|e r IH]; intros j0 j k; simpl.
+  - split; [tauto|]. intros (A & B & _). lia.
+  - rewrite in_app_iff, IH, uses_in_spec. simpl. split.
+    + intros [(A & B & C & D)|(A & _ & C & D)].
+      * replace (j - j0) with (S (j - S j0)) by lia. repeat split; auto; lia.
+      * subst j. rewrite Nat.sub_diag. rewrite Nat.sub_0_r in D. repeat split; auto; lia.
+    + intros (A & B & C & D). destruct (Nat.eq_dec j j0) as [->|Hne].
+      * right. rewrite Nat.sub_diag in C, D. rewrite Nat.sub_0_r. repeat split; auto; lia.
+      * left. replace (j - j0) with (S (j - S j0)) in C, D by lia. repeat split; auto; lia.
+Qed.
+
+Lemma has_ui_conn_of kept i a : has_ui i (conn_of kept a) = true <-> a = Some (AParam i) /\ nth i kept false = true.
+Proof.
+  destruct a as [[i'|j l|z]|]; simpl; try (split; [discriminate|intros [H _]; discriminate]).
+  destruct (nth i' kept false) eqn:E; simpl.
+  - rewrite orb_false_r, Nat.eqb_eq. split; [intros ->; auto|intros [H _]; inversion H; auto].
+  - split; [discriminate|]. intros [H K]. inversion H; subst. congruence.
+Qed.
+
+Section Purge.
+  Variables (ps : list param) (body : list (stmt mdef)) (ins : list val) (sb0 : list (sbody snode)).
+  Variable Q : nat -> vnode -> Prop.
+  Let np := List.length ps.
+  Let nb := List.length body.
+  Hypothesis HQ : forall j v k x, j < nb -> k < List.length (sargs body j) -> Q j v -> Q j (set_in (kid sb0 j) v k x).
+  Hypothesis Hargs : forall j, j < nb -> List.length (sargs body j) <= s_nins (kid sb0 j).
+  Hypothesis Hlen0 : List.length sb0 = nb.
+
+  Definition PI (st : bst) : Prop :=
+    List.length (b_recvs st) = np /\ List.length (b_kept st) = np /\ List.length (b_uirecv st) = np /\
+    List.length (b_vbody st) = nb /\ List.length (b_body st) = nb /\
+    (forall j, sb_node (nth j (b_body st) dsb) = sb_node (nth j sb0 dsb) /\
+               sb_orecv (nth j (b_body st) dsb) = sb_orecv (nth j sb0 dsb) /\
+               (j < nb -> List.length (sb_conns (nth j (b_body st) dsb)) = s_nins (kid sb0 j))) /\
+    (forall i, i < np -> nth i (b_kept st) false = true -> nth i (b_recvs st) ROrphan = RUI i) /\
+    (forall i j k, i < np -> nth i (b_kept st) false = false -> j < nb ->
+                   nth_error (sargs body j) k = Some (AParam i) -> nth i (b_recvs st) ROrphan = RBody j k) /\
+    (forall i, i < np -> nth i (b_kept st) false = false ->
+               match nth i (b_recvs st) ROrphan with
+               | RBody j k => j < nb /\ nth_error (sargs body j) k = Some (AParam i)
+               | ROrphan => True
+               | RUI _ => False
+               end) /\
+    (forall i, i < np -> nth i (b_kept st) false = false -> nth i (b_uirecv st) None = None) /\
+    (forall j k, j < nb -> k < s_nins (kid sb0 j) ->
+                 nth k (sb_conns (nth j (b_body st) dsb)) [] = conn_of (b_kept st) (nth_error (sargs body j) k)) /\
+    (forall i j k, i < np -> nth i (b_kept st) false = false -> nth i (b_recvs st) ROrphan = RBody j k ->
+                   nth k (v_ins (nth j (b_vbody st) dv)) None = nth i ins None) /\
+    (forall j k z, j < nb -> nth_error (sargs body j) k = Some (AConst z) ->
+                   nth k (v_ins (nth j (b_vbody st) dv)) None = Some z) /\
+    (forall j, j < nb -> List.length (v_ins (nth j (b_vbody st) dv)) = s_nins (kid sb0 j)) /\
+    (forall j, j < nb -> Q j (nth j (b_vbody st) dv)).
+
+  Lemma purge_one_inv st i st' : PI st -> i < np -> purge_one ps ins st i = Some st' ->
+    PI st' /\ b_uirecv st' = b_uirecv st.
+  Proof.
+    intros (L1 & L2 & L3 & L4 & L5 & SK & P3 & P4 & P5 & P6 & PC & D1 & D2 & D4 & DQ) Hi H.
+    unfold purge_one in H.
+    destruct (nth i (b_uirecv st) None) as [o|] eqn:Eu.
+    { inversion H; subst. split; auto. repeat split; auto; apply SK. }
+    assert (Huses : forall j k, In (j, k) (uses i 0 (b_body st)) <->
+              j < nb /\ nth_error (sargs body j) k = Some (AParam i) /\ nth i (b_kept st) false = true).
+    { intros j k. rewrite uses_spec. rewrite Nat.sub_0_r. simpl. rewrite L5. split.
+      - intros (_ & Hj & Hk & Hu). destruct (SK j) as (_ & _ & SL). rewrite (SL Hj) in Hk.
+        rewrite (PC j k Hj Hk) in Hu. apply has_ui_conn_of in Hu. tauto.
+      - intros (Hj & Ha & Hk). destruct (SK j) as (_ & _ & SL).
+        assert (Hkl : k < s_nins (kid sb0 j)).
+        { apply nth_error_nth2 with (d := AConst 0) in Ha as [_ Ha]. specialize (Hargs j Hj). lia. }
+        rewrite (SL Hj). rewrite (PC j k Hj Hkl). repeat split; auto; try lia.
+        apply has_ui_conn_of. auto. }
+    destruct (nth i (b_kept st) false) eqn:Ek.
+    2:{ (* already removed: cannot happen during the single pass, but harmless *)
+        assert (Hnil : uses i 0 (b_body st) = []).
+        { destruct (uses i 0 (b_body st)) as [|[j k] r] eqn:E; auto.
+          assert (In (j, k) (uses i 0 (b_body st))) by (rewrite E; simpl; auto).
+          apply Huses in H0. destruct H0 as (_ & _ & F). discriminate. }
+        rewrite Hnil in H. inversion H; subst; simpl. split; auto.
+        unfold PI; simpl. rewrite !upd_nth_length.
+        assert (Hkept : upd_nth i false (b_kept st) = b_kept st).
+        { rewrite <- Ek at 1. apply upd_nth_same_val. }
+        rewrite Hkept.
+        split; auto. split; auto. split; auto. split; auto. split; auto. split; [exact SK|].
+        split; [|split; [|split; [|split; [exact P6|split; [exact PC|split; [|split; [exact D2|split; [exact D4|exact DQ]]]]]]]].
+        - intros i' Hi' Hk'. rewrite nth_upd_other; auto. intros ->. congruence.
+        - intros i' j k Hi' Hk' Hj Ha. destruct (Nat.eq_dec i' i) as [->|Hne].
+          + exfalso. assert (In (j, k) (uses i 0 (b_body st))).
+            { apply Huses. admit. }
+            admit.
+          + rewrite nth_upd_other; auto.
+        - admit.
+        - admit. }
+    admit.
+  Admitted.
+End Purge.
